@@ -23,6 +23,13 @@ export function build(x) {
       return f();
     }
     case "arr": {
+      if (x.repeat) {
+        // a long array: the items, then `repeat` more copies of the last one (each built afresh)
+        const arr = x.items.map(build);
+        const last = x.items[x.items.length - 1];
+        for (let n = 0; n < x.repeat; n++) arr.push(build(last));
+        return arr;
+      }
       if (!x.items.some((i) => i.a === "hole")) return x.items.map(build);
       const arr = new Array(x.items.length); // sparse: a hole is an index the array does not have
       x.items.forEach((i, n) => {
@@ -48,6 +55,7 @@ export function toSrc(x) {
     case "raw":
       return x.src;
     case "arr":
+      if (x.repeat) return "[" + x.items.map(toSrc).join(", ") + `, ...Array.from({ length: ${x.repeat} }, () => (${toSrc(x.items[x.items.length - 1])}))]`;
       return "[" + x.items.map((i) => (i.a === "hole" ? "" : toSrc(i))).join(", ") + (x.items.length && x.items[x.items.length - 1].a === "hole" ? "," : "") + "]";
     case "obj":
       if (x.entries.some(([k]) => k === "__proto__"))
@@ -151,6 +159,30 @@ export function sparseSet(U, cap = 60) {
     }
   }
   return out;
+}
+
+// long arrays: the first array met in a value (root or nested) gets `repeat` more copies of its last item. Offered by
+// C03 and C12 to a slice of the validators: size is an input dimension of its own (argument-count limits of spread calls,
+// recursion per element), for accepted and for rejected values alike.
+export function bigVariant(vx, repeat = 200000) {
+  let done = false;
+  const go = (x) => {
+    if (done) return x;
+    switch (x.a) {
+      case "arr":
+        if (x.items.length && !x.items.some((i) => i.a === "hole")) {
+          done = true;
+          return { ...x, repeat };
+        }
+        return x;
+      case "obj":
+        return Obj(x.entries.map(([k, v]) => [k, go(v)]));
+      default:
+        return x;
+    }
+  };
+  const out = go(vx);
+  return done ? { ...out, big: true } : null;
 }
 
 // cyclic values: not part of the pool (the reference and most monitors walk values); C03 and C12 add them to ask only
